@@ -23,6 +23,8 @@ def field_kind(fd):
         return "bytes"
     if q in FRAMES:
         return "frames"
+    if q.startswith("std::unordered_map<") or q.endswith("SegmentedPackets"):
+        return "map"
     return "scalar"
 
 
@@ -51,7 +53,7 @@ class ClassInfo:
     def struct(self):
         out = ["/-- state of `%s`: one field per data member -/" % self.qual, "structure %s_St where" % self.lean]
         for nm, k, ct in self.fields:
-            ty = {"bytes": "Bytes", "frames": "List Bytes"}.get(k) or ("Bool" if ct[0] == "b" else "Nat")
+            ty = {"bytes": "Bytes", "frames": "List Bytes", "map": "SMap %s_St" % (self.elem.lean if getattr(self, "elem", None) else "Unit")}.get(k) or ("Bool" if ct[0] == "b" else "Nat")
             out.append("  f_%s : %s" % (nm, ty))
         out.append("deriving Repr, Inhabited\n")
         return "\n".join(out)
@@ -69,6 +71,10 @@ class ObjFn(FnTr):
         self.has_fuel = False
         self.aux = []
         self.nloops = 0
+        self.pktvars = {}       # decl id of a local std::shared_ptr<Packet> -> lean name (PktOut)
+        self.pktlists = {}      # decl id of a local std::vector<std::shared_ptr<Packet>> -> lean name (List PktOut)
+        self.locobj = {}        # decl id of a local object of the map's element class -> lean name (element state)
+        self.ext_fns = []       # untranslatable static functions returning a packet list: function parameters
         self.opaque = []        # names of argument-less const getters of the same object that are outside the subset: extra inputs
         self.locrec = {}        # decl id of a local wire-record object -> lean name (Bytes)
         self.outbuf = None      # decl id of a `void*` parameter that is only a memcpy destination: the function returns those bytes
@@ -86,6 +92,10 @@ class ObjFn(FnTr):
             f.ret = ("v",)
         elif strip_cv(rts) in FRAMES or "vector<vector<unsigned char>>" in rts:
             f.ret = ("frames",)
+        elif "vector<std::shared_ptr<Packet>>" in rts or "vector<std::shared_ptr<ASAM::CMP::Packet>>" in rts:
+            f.ret = ("pktlist",)
+        elif strip_cv(rts) in ("std::shared_ptr<Packet>", "std::shared_ptr<ASAM::CMP::Packet>"):
+            f.ret = ("pktptr",)
         else:
             f.ret = self.T.ctype_s(rts)
         f.params = []
@@ -100,6 +110,12 @@ class ObjFn(FnTr):
                     continue
                 if strip_cv(q) in ("void *", "void*") and self.only_memcpy_dest(c["id"], TU.body_of(n)):
                     self.outbuf = c["id"]
+                    continue
+                if strip_cv(q) in ("void *", "void*"):
+                    nm = self.vname(c.get("name"), "a_")
+                    self.locals[c["id"]] = nm
+                    self.local_ty[nm] = "Nat"
+                    f.params.append((nm, ("p", "unsigned char")))
                     continue
                 rq = strip_cv(q.rstrip("&").strip())
                 rec = None
@@ -153,6 +169,8 @@ class ObjFn(FnTr):
                     if not init:
                         raise Untranslatable("member without default initialiser")
                     e = init[0]
+                    while e.get("kind") == "InitListExpr" and len(e.get("inner", [])) == 1:
+                        e = e["inner"][0]
                 B0 = []
                 v = self.ex(e, B0)
                 pre += B0
@@ -165,6 +183,7 @@ class ObjFn(FnTr):
         f.has_fuel = self.has_fuel
         f.aux = self.aux
         f.opaque = list(self.opaque)
+        f.ext_fns = list(self.ext_fns)
         f.outbuf = self.outbuf is not None
         return f
 
@@ -268,7 +287,8 @@ class ObjFn(FnTr):
 
     def pptr(self, n, B):
         """pointer with provenance: (region, offset lean expr), or ('pkt', name, offset) for the packet's payload, or None"""
-        while n.get("kind") in ("ParenExpr", "ImplicitCastExpr", "CXXReinterpretCastExpr", "CStyleCastExpr", "CXXStaticCastExpr") and n.get("castKind") in (None, "BitCast", "NoOp", "LValueToRValue"):
+        while (n.get("kind") in ("ParenExpr", "ImplicitCastExpr", "CXXReinterpretCastExpr", "CStyleCastExpr", "CXXStaticCastExpr") and n.get("castKind") in (None, "BitCast", "NoOp", "LValueToRValue")) \
+                or n.get("kind") in ("MaterializeTemporaryExpr", "ExprWithCleanups", "CXXBindTemporaryExpr"):
             n = n["inner"][0]
         k = n.get("kind")
         if k == "DeclRefExpr" and n["referencedDecl"]["id"] in self.prov:
@@ -351,6 +371,21 @@ class ObjFn(FnTr):
                     m = self.structs[b["referencedDecl"]["id"]]
                     if sub.get("name") in m:
                         return m[sub["name"]]
+        if k == "BinaryOperator" and n.get("opcode") in ("==", "!=") and any(self.strip_casts(x).get("kind") == "CXXNullPtrLiteralExpr" or x.get("castKind") == "NullToPointer" for x in n["inner"]):
+            other = [x for x in n["inner"] if not (self.strip_casts(x).get("kind") == "CXXNullPtrLiteralExpr" or x.get("castKind") == "NullToPointer")][0]
+            return "(%s %s 0)" % (self.ex(other, B), n["opcode"])
+        if k == "CXXMemberCallExpr":
+            me0 = n["inner"][0]
+            while me0.get("kind") in ("ParenExpr", "ImplicitCastExpr"):
+                me0 = me0["inner"][0]
+            if me0.get("kind") == "MemberExpr":
+                pv = self.pkt_var_of_arrow(me0["inner"][0])
+                if pv is not None and me0.get("name") == "getPayloadLength" and len(n["inner"]) == 1:
+                    return "(pktPayloadLength %s)" % pv
+                if self.map_elem(me0["inner"][0]) is not None or (self.strip_casts(me0["inner"][0]).get("kind") == "DeclRefExpr" and self.strip_casts(me0["inner"][0])["referencedDecl"]["id"] in self.locobj):
+                    r = self.elem_call(n, B)
+                    if r is not None:
+                        return r
         if k == "MemberExpr":
             f = self.this_field(n)
             if f is not None and f[1] == "scalar":
@@ -394,6 +429,107 @@ class ObjFn(FnTr):
             return self.load(self.lv(sub, B), B)
         return FnTr.ex(self, n, B)
 
+    # ------------------------------------------------------------------ packets produced by the decoder
+    def is_make_shared_packet(self, n):
+        while n.get("kind") in ("MaterializeTemporaryExpr", "CXXBindTemporaryExpr", "ExprWithCleanups", "ImplicitCastExpr", "CXXConstructExpr") and n.get("inner") and len(n["inner"]) == 1:
+            n = n["inner"][0]
+        if n.get("kind") == "CallExpr" and self.strip_casts(n["inner"][0]).get("referencedDecl", {}).get("name") == "make_shared" and len(n["inner"]) == 4:
+            return n
+        return None
+
+    def packet_value(self, n, B):
+        """Lean term of type PktOut for an expression of type std::shared_ptr<Packet>, or None"""
+        ms = self.is_make_shared_packet(n)
+        if ms is not None:
+            mt = self.ex(ms["inner"][1], B)
+            pp = self.pptr(ms["inner"][2], B)
+            if pp is not None and pp[0][0] in ("tmpl", "back"):
+                src = "(%s.drop %s)" % (self.rbytes(pp[0]), pp[1])
+            else:
+                self.fn.uses_mem = True
+                src = "(m.drop %s)" % self.ex(ms["inner"][2], B)
+            self.ex(ms["inner"][3], B)      # the size argument is evaluated (and ignored by the constructor)
+            t = self.fresh()
+            B.append("let %s ← mkPacket %s %s" % (t, mt, src))
+            return t
+        x = n
+        while x.get("kind") in ("MaterializeTemporaryExpr", "CXXBindTemporaryExpr", "ExprWithCleanups", "ImplicitCastExpr", "CXXConstructExpr") and x.get("inner") and len(x["inner"]) == 1:
+            x = x["inner"][0]
+        if x.get("kind") == "DeclRefExpr" and x["referencedDecl"]["id"] in self.pktvars:
+            return self.pktvars[x["referencedDecl"]["id"]]
+        if x.get("kind") == "CXXMemberCallExpr":
+            r = self.elem_call(x, B)
+            if r is not None:
+                return r
+        return None
+
+    def pkt_var_of_arrow(self, obj):
+        """`packet->…`: CXXOperatorCallExpr operator-> on a local shared_ptr<Packet>"""
+        while obj.get("kind") in ("ParenExpr", "ImplicitCastExpr"):
+            obj = obj["inner"][0]
+        if obj.get("kind") == "CXXOperatorCallExpr" and self.strip_casts(obj["inner"][0]).get("referencedDecl", {}).get("name") == "operator->":
+            x = obj["inner"][1]
+            while x.get("kind") in ("ParenExpr", "ImplicitCastExpr"):
+                x = x["inner"][0]
+            if x.get("kind") == "DeclRefExpr" and x["referencedDecl"]["id"] in self.pktvars:
+                return self.pktvars[x["referencedDecl"]["id"]]
+        return None
+
+    # ------------------------------------------------------------------ map member
+    def map_key(self, n, B):
+        while n.get("kind") in ("MaterializeTemporaryExpr", "ImplicitCastExpr", "CXXBindTemporaryExpr", "CXXConstructExpr") and n.get("inner") and len(n["inner"]) == 1:
+            n = n["inner"][0]
+        if n.get("kind") == "InitListExpr" and len(n.get("inner", [])) == 2:
+            return "(%s, %s)" % (self.ex(n["inner"][0], B), self.ex(n["inner"][1], B))
+        raise Untranslatable("map key")
+
+    def map_elem(self, n):
+        """(field name, key node) if n is `this->map[key]`"""
+        while n.get("kind") in ("ParenExpr", "ImplicitCastExpr", "MaterializeTemporaryExpr"):
+            n = n["inner"][0]
+        if n.get("kind") == "CXXOperatorCallExpr" and self.strip_casts(n["inner"][0]).get("referencedDecl", {}).get("name") == "operator[]":
+            f = self.this_field(n["inner"][1])
+            if f is not None and f[1] == "map":
+                return f[0], n["inner"][2]
+        return None
+
+    def elem_call(self, n, B):
+        """`this->map[key].method(args)`: index (default-inserting), run the element class's translated method, store the element back"""
+        me = n["inner"][0]
+        while me.get("kind") in ("ParenExpr", "ImplicitCastExpr"):
+            me = me["inner"][0]
+        if me.get("kind") != "MemberExpr":
+            return None
+        el = self.map_elem(me["inner"][0])
+        tgt = None
+        if el is None:
+            b = me["inner"][0]
+            while b.get("kind") in ("ParenExpr", "ImplicitCastExpr"):
+                b = b["inner"][0]
+            if b.get("kind") == "DeclRefExpr" and b["referencedDecl"]["id"] in self.locobj:
+                tgt = self.locobj[b["referencedDecl"]["id"]]
+            else:
+                return None
+        EO = self.OT.elem
+        d = self.T.definition(me["referencedMemberDecl"])
+        g = EO.translate(d)
+        argv = [self.ex(a, B) for a in n["inner"][1:]]
+        if g.uses_mem:
+            self.fn.uses_mem = True
+            argv = ["m"] + argv
+        r = self.fresh()
+        if el is not None:
+            fname, keyn = el
+            key = self.map_key(keyn, B)
+            e = self.fresh("el")
+            B.append("let (mp_, %s) := mapIndex s.f_%s %s %s_default" % (e, fname, key, EO.cls.lean))
+            B.append("let s := { s with f_%s := mp_ }" % fname)
+            B.append("let (%s, %s) ← %s_obj %s %s" % (e, r, g.lean, e, " ".join(argv)))
+            B.append("let s := { s with f_%s := mapPut s.f_%s %s %s }" % (fname, fname, key, e))
+        else:
+            B.append("let (%s, %s) ← %s_obj %s %s" % (tgt, r, g.lean, tgt, " ".join(argv)))
+        return r
+
     def ty_is_scalar(self, n):
         try:
             return self.ty(n)[0] in ("i", "b")
@@ -408,6 +544,29 @@ class ObjFn(FnTr):
             while me.get("kind") in ("ParenExpr", "ImplicitCastExpr"):
                 me = me["inner"][0]
             if me.get("kind") == "MemberExpr":
+                pv = self.pkt_var_of_arrow(me["inner"][0])
+                if pv is not None and me.get("name") in ("setVersion", "setDeviceId", "setStreamId") and len(inner) == 2:
+                    fld = {"setVersion": "version", "setDeviceId": "deviceId", "setStreamId": "streamId"}[me["name"]]
+                    B.append("let %s := { %s with %s := %s }" % (pv, pv, fld, self.ex(inner[1], B)))
+                    return None
+                b0 = me["inner"][0]
+                while b0.get("kind") in ("ParenExpr", "ImplicitCastExpr"):
+                    b0 = b0["inner"][0]
+                if b0.get("kind") == "DeclRefExpr" and b0["referencedDecl"]["id"] in self.pktlists and me.get("name") == "push_back" and len(inner) == 2:
+                    pvv = self.packet_value(inner[1], B)
+                    if pvv is None:
+                        raise Untranslatable("push_back argument")
+                    lst = self.pktlists[b0["referencedDecl"]["id"]]
+                    B.append("let %s := %s ++ [%s]" % (lst, lst, pvv))
+                    return None
+                f0 = self.this_field(me["inner"][0])
+                if f0 is not None and f0[1] == "map" and me.get("name") == "erase" and len(inner) == 2:
+                    B.append("let s := { s with f_%s := mapErase s.f_%s %s }" % (f0[0], f0[0], self.map_key(inner[1], B)))
+                    return None
+                if self.map_elem(me["inner"][0]) is not None or (b0.get("kind") == "DeclRefExpr" and b0["referencedDecl"]["id"] in self.locobj):
+                    r = self.elem_call(n, B)
+                    if r is not None:
+                        return r
                 obj = me["inner"][0]
                 base = obj
                 while base.get("kind") in ("ParenExpr", "ImplicitCastExpr"):
@@ -585,6 +744,33 @@ class ObjFn(FnTr):
         k = s.get("kind")
         if k in ("ExprWithCleanups", "ParenExpr"):
             return self.effect(s["inner"][0], B)
+        if k == "CXXOperatorCallExpr" and self.strip_casts(s["inner"][0]).get("referencedDecl", {}).get("name") == "operator=" and len(s["inner"]) == 3:
+            lhs, rhs = s["inner"][1], s["inner"][2]
+            l0 = lhs
+            while l0.get("kind") in ("ParenExpr", "ImplicitCastExpr"):
+                l0 = l0["inner"][0]
+            if l0.get("kind") == "DeclRefExpr" and l0["referencedDecl"]["id"] in self.pktvars:
+                pv = self.packet_value(rhs, B)
+                if pv is None:
+                    raise Untranslatable("assignment to a packet pointer")
+                B.append("let %s := %s" % (self.pktvars[l0["referencedDecl"]["id"]], pv))
+                return
+            el = self.map_elem(lhs)
+            if el is not None:
+                # this->map[key] = std::move(localObject)
+                r0 = rhs
+                while r0.get("kind") in ("ParenExpr", "ImplicitCastExpr", "MaterializeTemporaryExpr", "CXXBindTemporaryExpr", "ExprWithCleanups"):
+                    r0 = r0["inner"][0]
+                if r0.get("kind") == "CallExpr" and self.strip_casts(r0["inner"][0]).get("referencedDecl", {}).get("name") == "move":
+                    r0 = r0["inner"][1]
+                    while r0.get("kind") in ("ParenExpr", "ImplicitCastExpr"):
+                        r0 = r0["inner"][0]
+                if r0.get("kind") == "DeclRefExpr" and r0["referencedDecl"]["id"] in self.locobj:
+                    key = self.map_key(el[1], B)
+                    B.append("let (mp_, _) := mapIndex s.f_%s %s %s_default" % (el[0], key, self.OT.elem.cls.lean))
+                    B.append("let s := { s with f_%s := mapPut mp_ %s %s }" % (el[0], key, self.locobj[r0["referencedDecl"]["id"]]))
+                    return
+                raise Untranslatable("assignment to a map element")
         if k in ("CXXMemberCallExpr", "CallExpr"):
             self.call(s, B, want_value=False)
             return
@@ -602,6 +788,44 @@ class ObjFn(FnTr):
                 if not init:
                     raise Untranslatable("uninitialised local")
                 e = init[0]
+                qd0 = strip_cv((d.get("type", {}).get("qualType") or ""))
+                if qd0 in ("std::shared_ptr<Packet>", "std::shared_ptr<ASAM::CMP::Packet>") or (qd0 == "auto" and self.is_make_shared_packet(e) is not None) or \
+                        strip_cv((d.get("type", {}).get("desugaredQualType") or "")) in ("std::shared_ptr<ASAM::CMP::Packet>",):
+                    nm = self.vname(d["name"])
+                    self.pktvars[d["id"]] = nm
+                    self.local_ty[nm] = "PktOut"
+                    pv = self.packet_value(e, B) if (e.get("inner") or e.get("kind") != "CXXConstructExpr") else None
+                    B.append("let %s := %s" % (nm, pv if pv is not None else "(default : PktOut)"))    # a null pointer is never dereferenced on a translated path... see DESIGN
+                    continue
+                if "vector<std::shared_ptr<Packet>>" in qd0 or "vector<std::shared_ptr<ASAM::CMP::Packet>>" in qd0:
+                    if e.get("kind") == "CXXConstructExpr" and not e.get("inner"):
+                        nm = self.vname(d["name"])
+                        self.pktlists[d["id"]] = nm
+                        self.local_ty[nm] = "List PktOut"
+                        B.append("let %s := ([] : List PktOut)" % nm)
+                        continue
+                    raise Untranslatable("packet list initialiser")
+                EO = getattr(self.OT, "elem", None)
+                if EO is not None and e.get("kind") == "CXXConstructExpr" and (qd0 == EO.cls.qual or EO.cls.qual.endswith("::" + qd0) or qd0.endswith(EO.cls.qual.split("::")[-1])):
+                    ctor = e.get("ctorType", {})
+                    # constructor with arguments: find it by its argument count among the element class's translated constructors
+                    args = e.get("inner", [])
+                    cands = [g for g in EO.order if g.lean.endswith("_ctor") and len(g.params) == len(args)]
+                    if not cands:
+                        EO.run_ctors()
+                        cands = [g for g in EO.order if g.lean.endswith("_ctor") and len(g.params) == len(args)]
+                    if len(cands) != 1:
+                        raise Untranslatable("constructor of the element class")
+                    g = cands[0]
+                    argv = [self.ex(a, B) for a in args]
+                    if g.uses_mem:
+                        self.fn.uses_mem = True
+                        argv = ["m"] + argv
+                    nm = self.vname(d["name"])
+                    self.locobj[d["id"]] = nm
+                    self.local_ty[nm] = "%s_St" % EO.cls.lean
+                    B.append("let (%s, _) ← %s_obj %s_default %s" % (nm, g.lean, EO.cls.lean, " ".join(argv)))
+                    continue
                 # local object of a wire record type, default-initialised
                 qd = strip_cv((d.get("type", {}).get("desugaredQualType") or d.get("type", {}).get("qualType") or ""))
                 if e.get("kind") == "CXXConstructExpr" and not e.get("inner"):
@@ -656,7 +880,8 @@ class ObjFn(FnTr):
             #   let (s, v…) ← (if c then (do …; pure (s, v…)) else (do …; pure (s, v…)))
             inner = s["inner"]
             did_of = {v: kk for kk, v in self.locals.items()}
-            assigned = [nm for nm in self.local_ty if nm in did_of and any(self.assigns(b, did_of[nm]) for b in inner[1:])]
+            objish = set(self.pktvars.values()) | set(self.pktlists.values())
+            assigned = [nm for nm in self.local_ty if (nm in did_of and any(self.assigns(b, did_of[nm]) for b in inner[1:])) or nm in objish]
             tup = "(s%s)" % "".join(", " + a for a in assigned)
             B = []
             c = self.cond(inner[0], B)
@@ -667,6 +892,32 @@ class ObjFn(FnTr):
             self.locals, self.local_ty, self.prov = saved_l, saved_t, saved_p
             code = "%slet %s ← (if %s then (do\n%s)\n%s  else (do\n%s))\n" % (pad, tup, c, th, pad, el)
             return self.with_binds(B, code + k(ind), ind)
+        if kind == "ReturnStmt" and s.get("inner") and self.fn.ret[0] in ("pktlist", "pktptr"):
+            x = s["inner"][0]
+            while x.get("kind") in ("CXXConstructExpr", "ImplicitCastExpr", "MaterializeTemporaryExpr", "ExprWithCleanups", "CXXBindTemporaryExpr") and x.get("inner") and len(x["inner"]) == 1:
+                x = x["inner"][0]
+            if self.fn.ret[0] == "pktptr":
+                B = []
+                pv = self.packet_value(s["inner"][0], B)
+                if pv is None:
+                    raise Untranslatable("returned packet")
+                return self.with_binds(B, pad + "pure (s, %s)" % pv, ind)
+            if x.get("kind") == "CXXConstructExpr" and not x.get("inner"):
+                return pad + "pure (s, [])"
+            if x.get("kind") == "DeclRefExpr" and x["referencedDecl"]["id"] in self.pktlists:
+                return pad + "pure (s, %s)" % self.pktlists[x["referencedDecl"]["id"]]
+            if x.get("kind") == "CallExpr":
+                c = self.strip_casts(x["inner"][0])
+                nm = "ext_" + re.sub(r"[^A-Za-z0-9_]", "_", c.get("referencedDecl", {}).get("name", "f"))
+                B = []
+                argv = [self.ex(a, B) for a in x["inner"][1:]]
+                if len(argv) != 2:
+                    raise Untranslatable("external packet-list function")
+                if nm not in self.ext_fns:
+                    self.ext_fns.append(nm)
+                self.fn.uses_mem = True
+                return self.with_binds(B, pad + "pure (s, %s m %s)" % (nm, " ".join(argv)), ind)
+            raise Untranslatable("returned packet list")
         if kind == "ReturnStmt" and s.get("inner"):
             # returning the moved-out frames
             x = s["inner"][0]
@@ -678,14 +929,15 @@ class ObjFn(FnTr):
 
     def while_stmt(self, s, k, ind):
         cond, body = s["inner"][0], s["inner"][1]
-        if self.contains(body, ("BreakStmt", "ContinueStmt", "ReturnStmt")):
-            raise Untranslatable("break / continue / return inside a loop")
+        if self.contains(body, ("ContinueStmt", "ReturnStmt")):
+            raise Untranslatable("continue / return inside a loop")
         self.has_fuel = True
         self.nloops += 1
         name = "%s_loop%d" % (self.T.lean_name(self.node), self.nloops)
         live = list(self.local_ty.items())              # everything in scope, in declaration order
         did_of = {v: kk for kk, v in self.locals.items()}
-        assigned = [nm for nm, _ in live if nm in did_of and self.assigns(body, did_of[nm])]
+        objish = set(self.pktvars.values()) | set(self.pktlists.values())
+        assigned = [nm for nm, _ in live if (nm in did_of and self.assigns(body, did_of[nm])) or nm in objish]
         params = " ".join("(%s : %s)" % (nm, ty) for nm, ty in live)
         args = " ".join(nm for nm, _ in live)
         ret_tuple = "(s%s)" % "".join(", " + a for a in assigned)
@@ -693,8 +945,15 @@ class ObjFn(FnTr):
         B = []
         c = self.cond(cond, B)
         saved_ty = dict(self.local_ty)
-        body_code = self.stmt(body, lambda i2: "  " * i2 + "%s fuel s %s" % (name, args), 3)
+        self.break_k.append(lambda i2: "  " * i2 + "pure %s" % ret_tuple)        # `break` leaves the loop with the current values
+        body_code = self.stmt(body, lambda i2: "  " * i2 + "%s fuel s ⟪M⟫%s" % (name, args), 3)
+        self.break_k.pop()
         self.local_ty = saved_ty
+        mem = bool(self.fn.uses_mem)
+        body_code = body_code.replace("⟪M⟫", "m " if mem else "")
+        if mem:
+            params = "(m : Bytes) " + params
+            args = "m " + args
         code = ["def %s (fuel : Nat) (s : %s_St) %s : Option (%s) :=" % (name, self.cls.lean, params, ret_ty),
                 "  match fuel with",
                 "  | 0 => none",
@@ -710,8 +969,9 @@ class ObjFn(FnTr):
 
 
 class ObjTranslator:
-    def __init__(self, T, class_qual):
+    def __init__(self, T, class_qual, elem=None):
         self.T = T
+        self.elem = elem          # translator of the element class of a map member
         rec = None
         for r in T.tu.records():
             if T.tu.qualname(r) == class_qual:
@@ -719,6 +979,7 @@ class ObjTranslator:
         if rec is None:
             raise Untranslatable("class %s not found" % class_qual)
         self.cls = ClassInfo(T, rec)
+        self.cls.elem = elem.cls if elem is not None else None
         self.fns = {}
         self.order = []
         self.failed = {}
@@ -767,15 +1028,46 @@ class ObjTranslator:
                         except (KeyError, IndexError, TypeError, AttributeError) as e:
                             self.failed[self.T.tu.qualname(n) + " (constructor)"] = "unexpected AST shape %r" % (e,)
 
+    def default_state(self):
+        """the state a defaulted constructor leaves: the members' default initialisers"""
+        h = ObjFn(self, self.cls.rec)
+        vals = []
+        for nm, k, ct in self.cls.fields:
+            if k in ("bytes", "frames", "map"):
+                vals.append("f_%s := []" % nm)
+                continue
+            fd = [x for x in self.cls.rec.get("inner", []) if x.get("kind") == "FieldDecl" and x.get("name") == nm][0]
+            init = [x for x in fd.get("inner", []) if x.get("kind") not in ("FullComment",)]
+            if not init:
+                raise Untranslatable("member %s without default initialiser" % nm)
+            B = []
+            e0 = init[0]
+            while e0.get("kind") in ("InitListExpr", "CXXFunctionalCastExpr", "ImplicitCastExpr", "ConstantExpr") and e0.get("kind") == "InitListExpr" and len(e0.get("inner", [])) == 1:
+                e0 = e0["inner"][0]
+            if e0.get("kind") == "InitListExpr" and not e0.get("inner"):
+                v = "0"
+            else:
+                v = h.ex(e0, B)
+            if B:
+                raise Untranslatable("default initialiser with effects")
+            vals.append("f_%s := %s" % (nm, v))
+        return "def %s_default : %s_St := { %s }\n" % (self.cls.lean, self.cls.lean, ", ".join(vals))
+
     def emit(self):
         out = [self.cls.struct()]
+        try:
+            out.append(self.default_state())
+        except Untranslatable:
+            pass
         for f in self.order:
             for a in f.aux:
                 out.append(a)
             ps = []
             for nm, t in f.params:
                 ps.append("(%s : %s)" % (nm, "PktIn" if t[0] == "pkt" else ("Bool" if t[0] == "b" else "Nat")))
-            rt = {"v": "Unit", "b": "Bool", "frames": "List Bytes"}.get(f.ret[0], "Nat")
+            rt = {"v": "Unit", "b": "Bool", "frames": "List Bytes", "pktlist": "List PktOut", "pktptr": "PktOut"}.get(f.ret[0], "Nat")
+            for e_ in getattr(f, "ext_fns", []):
+                ps.append("(%s : Bytes → Nat → Nat → List PktOut)" % e_)
             if getattr(f, "outbuf", False):
                 rt = "Bytes"
             for o in getattr(f, "opaque", []):
